@@ -197,6 +197,11 @@ pub trait Property: Sync {
     fn hang_is_violation(&self) -> bool {
         false
     }
+    /// Does the death of the worker by a signal (stack overflow, allocation failure) on a case,
+    /// reproduced alone, refute the property? Otherwise it is reported as inconclusive.
+    fn abort_is_violation(&self) -> bool {
+        self.hang_is_violation()
+    }
     /// Extra work done by the supervisor process itself (process pairs, CLI runs, Miri cross-runs).
     fn supervisor_phase(&self, _ctx: &mut Ctx, _env: &Env) {}
     /// Features that must have been reached for the run to count (counter keys).
@@ -666,6 +671,10 @@ pub fn run_check(prop: &dyn Property, tier: Tier, seed: u64, env: &Env, replay: 
                         merge_into(&mut merged, m);
                         merged.inconclusive.insert(format!("{kind}-not-reproduced-alone"));
                         *merged.counters.entry(format!("inconclusive/{kind}-not-reproduced-alone")).or_insert(0) += 1;
+                    }
+                    (k, _) if k.starts_with("signal:") && !prop.abort_is_violation() => {
+                        merged.inconclusive.insert(format!("worker-abort:{}:{}", k, phase.name));
+                        *merged.counters.entry(format!("inconclusive/worker-abort:{}:{}", k, phase.name)).or_insert(0) += 1;
                     }
                     (k, _) if k.starts_with("signal:") => {
                         merged.candidates.push(Candidate {
